@@ -18,7 +18,7 @@ RULE = ('cases: a valid prefix that opens and closes streams, closure by close_c
         'and >= 1 frame that would have produced output before closure; distinct by trace')
 ASSUMPTIONS = ['calls that raise must raise an h2 exception (or the documented ValueError/TypeError argument checks)']
 TIERS = {'quick': {'cases': 5000, 'size': 300},
-         'thorough': {'cases': 200000, 'size': 400}}
+         'thorough': {'cases': 1000000, 'size': 400}}
 REQ = bytesgen.REQ
 RESP = [(b':status', b'200')]
 
